@@ -974,7 +974,13 @@ def step : Task → M Value
         rec (.eval fn.body inner true (d + 1))
     | .var n => do
       let t ← getVar env n
-      wantThunk cfg rec t d
+      if n.startsWith "$" then
+        -- a library variable stands for `import "<lib>"`: the `Import` trace item is
+        -- pushed even when the imported thunk is already evaluated
+        checkDepth cfg (d + 1)
+        rec (.force t (d + 1))
+      else
+        wantThunk cfg rec t d
     | .local_ bs body => do
       let e' ← allocEnv { parent := some env, vars := [], obj := (← getEnv env).obj }
       let mut vars : List (String × TId) := []
@@ -1141,9 +1147,87 @@ def evalProgram (cfg : Cfg) (fuel : Nat) (e : Expr) : String × St :=
 def showTraces (st : St) : String :=
   " T" ++ ",".intercalate (st.traces.reverse.map strHex)
 
-/-- `core <maxStack> <fuel> <traces 0|1> <sexp tokens...>` -/
+/-! ### Histories (C11): several requests against one long-lived store -/
+
+inductive Req where
+  | eval (k : Nat)
+  | maxStack (n : Nat)
+  | gc
+
+/-- One request; a failure restores the thunks that were in progress. -/
+def runRequest (cfg : Cfg) (fuel : Nat) (t : TId) (st : St) : String × St :=
+  let prog : M String := do
+    let v ← run cfg fuel (.force t 0)
+    let _ ← run cfg fuel (.deep v 0)
+    match ← run cfg fuel (.manifest v 0 true) with
+    | .str s => pure s
+    | _ => throw (.internal "manifest did not return a string")
+  match (prog.run).run st with
+  | none => ("gas", st)
+  | some (.ok s, st') => ("ok " ++ s, st')
+  | some (.error er, st') => (showErr er, restoreInProgress st')
+
+/-- Libraries are closed expressions bound to variables of the root environment
+    (they stand for `import "<name>"`, whose thunk the session caches). -/
+def runHistory (maxStack fuel : Nat) (libs : List (String × Expr)) (srcs : List Expr) (reqs : List Req) :
+    List String :=
+  let init : M (List TId) := do
+    let stdT ← allocThunk (.done .null)
+    let root ← allocEnv { parent := none, vars := [("std", stdT)], obj := none }
+    let mut vars : List (String × TId) := [("std", stdT)]
+    for (n, e) in libs do
+      vars := vars ++ [(n, ← allocThunk (.pending (.expr e root)))]
+    setEnv root { parent := none, vars := vars, obj := none }
+    let mut ts : List TId := []
+    for e in srcs do
+      ts := ts ++ [← allocThunk (.pending (.expr e root))]
+    pure ts
+  match (init.run).run {} with
+  | some (.ok ts, st0) =>
+    let rec go (reqs : List Req) (ms : Nat) (st : St) (acc : List String) : List String :=
+      match reqs with
+      | [] => acc.reverse
+      | .maxStack n :: rest => go rest n st ("ms" :: acc)
+      | .gc :: rest => go rest ms st ("gc" :: acc)
+      | .eval k :: rest =>
+        match ts[k]? with
+        | none => go rest ms st ("skip" :: acc)
+        | some t =>
+          let (out, st') := runRequest { maxStack := ms } fuel t st
+          go rest ms st' (out.replace " " "_" :: acc)
+    go reqs maxStack st0 []
+  | _ => ["init-failed"]
+
+def splitOnBar (toks : List String) : List (List String) :=
+  let rec go (toks : List String) (cur : List String) (acc : List (List String)) : List (List String) :=
+    match toks with
+    | [] => (cur.reverse :: acc).reverse
+    | "|" :: rest => go rest [] (cur.reverse :: acc)
+    | t :: rest => go rest (t :: cur) acc
+  go toks [] []
+
+def parseReq (s : String) : Option Req :=
+  match s.splitOn ":" with
+  | ["eval", k] => k.toNat?.map Req.eval
+  | ["maxstack", n] => n.toNat?.map Req.maxStack
+  | ["gc"] => some .gc
+  | _ => none
+
+/-- `core <maxStack> <fuel> <traces 0|1> <sexp tokens...>`
+    `core hist <maxStack> <fuel> | lib <hexname> <sexp...> | src <sexp...> | req <r> <r> ...` -/
 def handle (args : List String) : Option String := do
   match args with
+  | "hist" :: ms :: fuel :: "|" :: rest =>
+    let mut libs : List (String × Expr) := []
+    let mut srcs : List Expr := []
+    let mut reqs : List Req := []
+    for grp in splitOnBar rest do
+      match grp with
+      | "lib" :: n :: toks => libs := libs ++ [(← hexStr n, ← parseProgram toks)]
+      | "src" :: toks => srcs := srcs ++ [← parseProgram toks]
+      | "req" :: rs => reqs := reqs ++ (← rs.mapM parseReq)
+      | _ => none
+    pure (";".intercalate (runHistory (← ms.toNat?) (← fuel.toNat?) libs srcs reqs))
   | ms :: fuel :: tr :: rest =>
     let e ← parseProgram rest
     let (out, st) := evalProgram { maxStack := ← ms.toNat? } (← fuel.toNat?) e
